@@ -15,6 +15,7 @@ import (
 type Req struct {
 	Scenario string
 	PB, Dev  int
+	Delay    bool
 	Items    [][]int32
 	Budget   int
 	Skip     []string // prefixes (as strings) never to execute (race mode: known racy)
@@ -189,7 +190,7 @@ func handle(req *Req) *Resp {
 			resp.Samples = append(resp.Samples, MakeSample(s, &r))
 		}
 		if r.Oracle != "" && r.EndReason != vsched.EndHorizon {
-			pre, dev := Costs(&r)
+			pre, dev := Costs(&r, req.Delay)
 			v := &Violation{Scenario: s.Name, Oracle: r.Oracle, Msg: r.Msg, Prefix: append([]int32{}, r.Taken...), Pre: pre, Dev: dev, Parked: r.Parked, Panics: r.Panics}
 			if o, ok := best[r.Oracle]; !ok || better(v, o) {
 				best[r.Oracle] = v
@@ -204,7 +205,7 @@ func handle(req *Req) *Resp {
 						continue
 					}
 					c, d := pre, dev
-					if r.Kind[i] == vsched.KSched && r.Pre[i] && alt != 0 {
+					if r.Kind[i] == vsched.KSched && (r.Pre[i] || req.Delay) && alt != 0 {
 						c++
 					}
 					if r.Kind[i] == vsched.KDev && alt != 0 {
@@ -220,7 +221,7 @@ func handle(req *Req) *Resp {
 					stack = append(stack, p)
 				}
 			}
-			if r.Kind[i] == vsched.KSched && r.Pre[i] && r.Taken[i] != 0 {
+			if r.Kind[i] == vsched.KSched && (r.Pre[i] || req.Delay) && r.Taken[i] != 0 {
 				pre++
 			}
 			if r.Kind[i] == vsched.KDev && r.Taken[i] != 0 {
